@@ -123,7 +123,100 @@ def definitions():
     return None
 
 
+def ref_adx(high, low, close, n):
+    """Wilder's ADX: +DM / -DM count only the larger of the two extensions (both 0 on a tie), Wilder sums, DX, smoothed"""
+    N = len(close)
+    tr, pdm, mdm = [0.0] * N, [0.0] * N, [0.0] * N
+    for i in range(1, N):
+        tr[i] = max(high[i] - low[i], abs(high[i] - close[i - 1]), abs(low[i] - close[i - 1]))
+        up, down = high[i] - high[i - 1], low[i - 1] - low[i]
+        pdm[i] = up if (up > down and up > 0) else 0.0
+        mdm[i] = down if (down > up and down > 0) else 0.0
+
+    def smooth(x):
+        sm = [nan] * N
+        sm[n] = sum(x[1:n + 1])
+        for i in range(n + 1, N):
+            sm[i] = sm[i - 1] - sm[i - 1] / n + x[i]
+        return sm
+    st, sp, smn = smooth(tr), smooth(pdm), smooth(mdm)
+    dx = [nan] * N
+    for i in range(n, N):
+        if st[i] == 0:
+            dx[i] = 0.0
+            continue
+        dip, dim = 100 * sp[i] / st[i], 100 * smn[i] / st[i]
+        dx[i] = 100 * abs(dip - dim) / (dip + dim) if (dip + dim) != 0 else 0.0
+    adx = [nan] * N
+    if 2 * n < N:
+        adx[2 * n] = sum(dx[n:2 * n]) / n
+        for i in range(2 * n + 1, N):
+            adx[i] = (adx[i - 1] * (n - 1) + dx[i]) / n
+    return adx
+
+
+def more_definitions():
+    """bounded native definitions that the real-arithmetic layer cannot see or does not cover: ADX on series with exact ties,
+    stochastic %K / %D with different smoothing types, standard deviation at huge price levels (cancellation)"""
+    import jesse.indicators as ta
+    # ADX (after the start-up seed: from index 2 * period on)
+    for kind in ('random', 'ties'):
+        c = indic.candles(160, 4, kind)
+        high, low, close = c[:, 3].tolist(), c[:, 4].tolist(), c[:, 2].tolist()
+        for p in (2, 5, 14):
+            got = np.asarray(ta.adx(c, period=p, sequential=True), dtype=float)
+            want = np.asarray(ref_adx(high, low, close, p), dtype=float)
+            for j in range(2 * p, len(close)):
+                if not indic.close_enough(got[j:j + 1], want[j:j + 1], 1e-7):
+                    return f'adx(period={p})[{j}] = {got[j]} on a {kind} series but Wilder\'s definition gives {want[j]}'
+    # stochastic: %K = MA_slowk(raw %K), %D = MA_slowd(%K), each with its OWN smoothing type
+    c = indic.candles(120, 6, 'random')
+    high, low, close = c[:, 3], c[:, 4], c[:, 2]
+    fk, sk, sd = 14, 3, 3
+    raw = np.full(len(close), nan)
+    for j in range(fk - 1, len(close)):
+        hh, ll = high[j - fk + 1:j + 1].max(), low[j - fk + 1:j + 1].min()
+        raw[j] = 100 * (close[j] - ll) / (hh - ll)
+    mas = {0: K.sma, 2: K.wma}
+    for kt in (0, 2):
+        for dt in (0, 2):
+            r = ta.stoch(c, fastk_period=fk, slowk_period=sk, slowk_matype=kt, slowd_period=sd, slowd_matype=dt, sequential=True)
+            kk = np.asarray(mas[kt](raw[fk - 1:].tolist(), sk), dtype=float)
+            dd = np.asarray(mas[dt]([x for x in kk[sk - 1:].tolist()], sd), dtype=float)
+            gotk, gotd = np.asarray(r.k, dtype=float), np.asarray(r.d, dtype=float)
+            if not indic.close_enough(gotk[-20:], kk[-20:], 1e-7):
+                return f'stoch(slowk_matype={kt}, slowd_matype={dt}): %K differs from MA_{kt}(raw %K): {gotk[-1]} vs {kk[-1]}'
+            if not indic.close_enough(gotd[-20:], dd[-20:], 1e-7):
+                return f'stoch(slowk_matype={kt}, slowd_matype={dt}): %D = {gotd[-1]} but MA_{dt}(%K) = {dd[-1]}'
+    # standard deviation: population std of the trailing window (two-pass), also at a huge price level with small dispersion
+    for level in (0.0, 1e9):
+        c = indic.candles(80, 7, 'random')
+        c[:, 1:5] += level
+        close = c[:, 2]
+        for p in (5, 20):
+            got = np.asarray(ta.stddev(c, period=p, sequential=True), dtype=float)
+            for j in range(p - 1, len(close)):
+                w = close[j - p + 1:j + 1]
+                m = math.fsum(w) / p
+                want = math.sqrt(math.fsum((x - m) ** 2 for x in w) / p)
+                if abs(got[j] - want) > 1e-6 * max(1.0, want) + 1e-9 * abs(level):
+                    return (f'stddev(period={p})[{j}] = {got[j]} at price level {level + 100:.0f} but the population standard deviation '
+                            f'of the window is {want}')
+    return None
+
+
+def bounded(pl):
+    d = more_definitions() or definitions()
+    return {'confirmed': bool(d), 'detail': d or 'textbook definitions hold on the probed series (ties, mixed smoothing types, huge price levels)'}
+
+
 def replay(pl):
+    if pl['obligation'].startswith('native') or pl['obligation'].endswith('.native-bounded'):
+        try:
+            return bounded(pl)
+        except Exception as ex:
+            import traceback
+            return {'confirmed': False, 'error': f'{type(ex).__name__}: {ex}', 'stderr': traceback.format_exc()[-800:]}
     ob = pl['obligation']
     try:
         P = pl['m'].get('period')
